@@ -136,24 +136,57 @@ Theorem c11_one_stream_per_sender :
 Proof. exact one_stream_per_sender. Qed.
 Print Assumptions c11_one_stream_per_sender.
 
-(* 4b. Per PEER the clause is proved only in part: at most one open stream per
-   peer as long as no sender record was orphaned, i.e. the event list contains
-   no OnDisconnect critical section (EDisc) and no failed Lock(ctx) (ELockFail).
-   Missing: with those events the statement is false of the faithful model,
-   see the two refutations below. *)
+(* 4b. Per PEER: at most one open stream per peer for every event list without
+   an OnDisconnect critical section (EDisc).  Since the repair d646d02 a failed
+   Lock(ctx) (ELockFail) no longer orphans a sender, so it needs no exclusion.
+   PARTIAL only in this: right after a disconnect notification the statement is
+   false of the faithful model (and of the code) for a transient, see the
+   refutation below. *)
 Theorem c11_one_stream_per_peer_partial :
   forall evs s st1 y1 st2 y2,
-    run evs init = Some s -> forallb (fun e => negb (orphaning e)) evs = true ->
+    run evs init = Some s ->
+    forallb no_disc evs = true ->   (* no_disc e = true iff e is not an EDisc *)
     nth_error (streams s) st1 = Some y1 -> sm_cli y1 = COpen ->
     nth_error (streams s) st2 = Some y2 -> sm_cli y2 = COpen ->
     sm_peer y1 = sm_peer y2 -> st1 = st2.
 Proof. exact one_stream_per_peer. Qed.
 Print Assumptions c11_one_stream_per_peer_partial.
 
-(* After a disconnect notification the orphaned sender record, whose call is
-   still in its exchange, and the new record each own an open stream to the
-   same peer.  (By design: the old record is invalidated as soon as its lock is
-   free; replayed on the real code by the harness, counted in the evidence.) *)
+(* 4c. (replaces c11_stream_leak_refuted, the defect repaired by d646d02) For
+   every event list, OnDisconnect included: a mapped sender leaves the map only
+   through OnDisconnect of its peer, or after it has been invalidated (its
+   stream reset and dropped): no valid sender, hence no open stream, is ever
+   made unreachable by a call that merely gave up waiting for the lock ... *)
+Theorem c11_valid_sender_stays_mapped :
+  forall evs s e s' p sd,
+    run evs init = Some s -> step s e = Some s' -> mget (smap s) p = Some sd -> e <> EDisc p ->
+    mget (smap s') p = Some sd \/ option_map sd_invalid (nth_error (senders s) sd) = Some true.
+Proof. exact map_entry_stable. Qed.
+Print Assumptions c11_valid_sender_stays_mapped.
+
+(* ... a call whose prepOrInvalidate failed after taking the lock has invalidated the sender ... *)
+Theorem c11_failed_prep_invalidated :
+  forall evs s t th sd e,
+    run evs init = Some s -> mget (threads s) t = Some th -> t_pc th = PFailed sd e ->
+    option_map sd_invalid (nth_error (senders s) sd) = Some true.
+Proof. exact failed_prep_invalidated. Qed.
+Print Assumptions c11_failed_prep_invalidated.
+
+(* ... and without disconnects every valid sender is the one in the map. *)
+Theorem c11_valid_sender_is_mapped :
+  forall evs s sd x,
+    run evs init = Some s ->
+    forallb no_disc evs = true ->   (* no_disc e = true iff e is not an EDisc *)
+    nth_error (senders s) sd = Some x -> sd_invalid x = false -> mget (smap s) (sd_peer x) = Some sd.
+Proof. exact valid_sender_is_mapped. Qed.
+Print Assumptions c11_valid_sender_is_mapped.
+
+(* STILL TRUE of the repaired code (d646d02 does not touch OnDisconnect): after a
+   disconnect notification the orphaned sender record, whose call is still in
+   its exchange, and the new record each own an open stream to the same peer.
+   Transient by design: the old record is invalidated as soon as its lock is
+   free (EInval is pending in invq).  Reached on the real code by the harness
+   (branch two-open-streams in the evidence). *)
 Definition ex_disc : list event :=
   [EStart 0 7 KReq; ELock 0; EPrep 0; EDialOk 0; ELock 0; EPrep 0; EWriteOk 0;
    EDisc 7; EStart 1 7 KReq; ELock 1; EPrep 1; EDialOk 1].
@@ -168,32 +201,22 @@ Proof.
 Qed.
 Print Assumptions c11_one_stream_per_peer_refuted.
 
-(* Without any disconnect: call 0 creates the sender and, before it takes the
-   sender's lock in prepOrInvalidate, call 1 finds the sender in the map and
-   takes the lock; call 0's context is cancelled while it waits, so it returns
-   the error and deletes the sender from the map WITHOUT invalidating it; call 1
-   completes its exchange on the orphaned sender, whose open stream nobody can
-   reach any more (not in the map, no invalidation pending, no call refers to
-   it): the stream is leaked, and the next call opens a second stream to the
-   same peer.  Needs a preemption between :139 and :186; see the final report. *)
-Definition ex_leak : list event :=
-  [EStart 0 7 KReq; EStart 1 7 KReq; ELock 1; ECtx 0 CCancel; ELockFail 0; EAfterFail 0;
+(* The event list that leaked a stream before d646d02 (kept as a regression
+   witness; the hooked replay on the real code is in corpus/C11/orphan-sender):
+   call 0 creates the sender, call 1 takes its lock first, call 0's context ends
+   while it waits.  Now call 0 just fails, the sender stays mapped, call 2
+   reuses its stream: one stream, nothing leaked. *)
+Definition ex_lockfail : list event :=
+  [EStart 0 7 KReq; EStart 1 7 KReq; ELock 1; ECtx 0 CCancel; ELockFail 0;
    EPrep 1; EDialOk 1; EWriteOk 1; ERemAnswer 0 true; ERead 1;
-   EStart 2 7 KReq; ELock 2; EPrep 2; EDialOk 2].
-Theorem c11_stream_leak_refuted :
-  exists evs s x y y2,
-    run evs init = Some s /\ forallb (fun e => match e with EDisc _ => false | _ => true end) evs = true /\
-    nth_error (senders s) 0 = Some x /\ sd_stream x = Some 0 /\ sd_lock x = None /\ sd_invalid x = false /\
-    nth_error (streams s) 0 = Some y /\ sm_cli y = COpen /\
-    mget (smap s) (sd_peer x) <> Some 0 /\ invq s = [] /\
-    (forall t th, In (t, th) (threads s) -> pc_sender (t_pc th) <> Some 0) /\
-    nth_error (streams s) 1 = Some y2 /\ sm_cli y2 = COpen /\ sm_peer y2 = sm_peer y.
-Proof.
-  exists ex_leak. eexists. eexists. eexists. eexists. split; [vm_compute; reflexivity|].
-  repeat split; try reflexivity; try discriminate.
-  simpl. intros t th [E|[E|[E|[]]]]; inversion E; subst; simpl; discriminate.
-Qed.
-Print Assumptions c11_stream_leak_refuted.
+   EStart 2 7 KReq; ELock 2; EPrep 2; EWriteOk 2; ERemAnswer 0 true; ERead 2].
+Example c11_lockfail_no_leak :
+  exists s, run ex_lockfail init = Some s /\
+    length (streams s) = 1 /\ mget (smap s) 7 = Some 0 /\
+    option_map t_pc (mget (threads s) 0) = Some (PDone (RErr (ECtxErr CCancel))) /\
+    option_map t_pc (mget (threads s) 1) = Some (PDone (ROk (Some 1))) /\
+    option_map t_pc (mget (threads s) 2) = Some (PDone (ROk (Some 2))).
+Proof. eexists. split; [vm_compute; reflexivity|]. repeat split; reflexivity. Qed.
 
 (* 5. A call writes its message at most twice (one retry), in state and in events. *)
 Theorem c11_single_retry :
